@@ -129,10 +129,10 @@ type Metric struct {
 	RangeLast bool `json:"range_last,omitempty"`
 
 	// vecagg
-	HasK  bool    `json:"has_k,omitempty"`
-	K     int     `json:"k,omitempty"`
+	HasK bool `json:"has_k,omitempty"`
+	K    int  `json:"k,omitempty"`
 	// KText, when set, is how k is spelled (leading zeros are still decimal).
-	KText string `json:"k_text,omitempty"`
+	KText string  `json:"k_text,omitempty"`
 	Inner *Metric `json:"inner,omitempty"`
 	// GroupingFirst prints "sum by (a) (expr)" instead of "sum(expr) by (a)".
 	GroupingFirst bool `json:"grouping_first,omitempty"`
